@@ -173,6 +173,53 @@ func HJson() {
 	}
 }
 
+// HJsonForms: the reserved DAG-JSON forms ({"/": "<cid>"} and {"/": {"bytes": "<base64>"}}) with
+// free payloads of 0..K bytes, malformed continuations and trailers, under every flag setting
+// (inputs far longer than the all-bytes-free bound of HJson reaches).
+func HJsonForms() {
+	s := nd.Bytes("s", nd.Choose("slen", nd.Param("K", 2)+1))
+	in := []byte(`{"/":`)
+	switch nd.Choose("mid", 6) {
+	case 0:
+		in = append(append(append(in, '"'), s...), '"')
+	case 1:
+		in = append(append(append(in, `{"bytes":"`...), s...), `"}`...)
+	case 2:
+		in = append(append(append(in, `{"bytes":"`...), s...), '"', nd.Byte("b"))
+	case 3:
+		in = append(append(in, `{"bytes":`...), nd.Byte("b"), '}')
+	case 4:
+		in = append(append(append(in, `{"`...), s...), `":"AA"}`...)
+	case 5:
+		in = append(append(append(in, `{"bytes":"AA","`...), s...), `":1}`...)
+	}
+	switch nd.Choose("post", 4) {
+	case 0:
+		in = append(in, '}')
+	case 1:
+		in = append(in, nd.Byte("p"))
+	case 2:
+		in = append(in, `,"a":1}`...)
+	case 3:
+	}
+	if nd.Choose("wrap", 2) == 1 {
+		in = append(append([]byte{'['}, in...), ']')
+	}
+	var o dagjson.DecodeOptions
+	o.ParseLinks = nd.Bool("links")
+	o.ParseBytes = nd.Bool("bytes")
+	o.DontParseBeyondEnd = nd.Bool("stopatend")
+	nb := basicnode.Prototype.Any.NewBuilder()
+	var err error
+	nd.NoPanic("decode", func() { err = o.Decode(nb, bytes.NewReader(in)) })
+	if err == nil {
+		nd.NoPanic("build", func() { nb.Build().Kind() })
+		nd.Reach("accepted")
+	} else {
+		nd.Reach("rejected")
+	}
+}
+
 // HJsonDeep: nesting of '[' and '{"a":' against a free MaxDepth.
 func HJsonDeep() {
 	d := nd.Param("D", 4)
